@@ -110,7 +110,11 @@ pub fn value(rng: &mut Rng, v: V) -> String {
         V::UInt => rng.pick(&["0", "1", "42", "1024", "4294967295"]).to_string(),
         V::Priority => rng.pick(&["required", "important", "standard", "optional", "extra"]).to_string(),
         V::MultiArch => rng.pick(&["same", "foreign", "no", "allowed"]).to_string(),
-        V::Words => (0..1 + rng.below(3)).map(|_| word(rng)).collect::<Vec<_>>().join(" "),
+        V::Words => {
+            // now and then a list long enough to pass any line-folding threshold
+            let n = if rng.chance(1, 10) { 12 + rng.below(12) } else { 1 + rng.below(3) };
+            (0..n).map(|_| word(rng)).collect::<Vec<_>>().join(" ")
+        }
         V::CommaWords => (0..1 + rng.below(3)).map(|_| rng.s(&["foo", "bar", "libfoo-dev", "a"]).to_string()).collect::<Vec<_>>().join(", "),
         V::Lines => (0..1 + rng.below(3)).map(|_| word(rng)).collect::<Vec<_>>().join("\n"),
         V::Sha1s => (0..1 + rng.below(2)).map(|_| format!("{} {} {}", hex(rng, 40), rng.below(100000), word(rng))).collect::<Vec<_>>().join("\n"),
@@ -172,6 +176,14 @@ pub fn render_field(name: &str, val: &str, rng: &mut Rng) -> String {
     let mut s = String::new();
     s.push_str(name);
     s.push(':');
+    // the common "Field:\n value,\n value" layout: nothing after the colon, the value starts on the next line
+    let val_owned;
+    let val = if !val.is_empty() && !val.starts_with('\n') && !val.split('\n').any(|l| l.starts_with('#') || l.is_empty()) && (val.contains('\n') || val.contains(',')) && rng.chance(1, 6) {
+        val_owned = format!("\n{}", val.replace(", ", ",\n"));
+        val_owned.as_str()
+    } else {
+        val
+    };
     let lines: Vec<&str> = val.split('\n').collect();
     for (i, l) in lines.iter().enumerate() {
         if i == 0 {
